@@ -11,6 +11,7 @@ import (
 	"time"
 
 	"github.com/brocaar/lorawan"
+	"github.com/brocaar/lorawan/applayer/clocksync"
 	"github.com/jacobsa/crypto/cmac"
 
 	"verifharness/internal/cases"
@@ -306,7 +307,7 @@ func forge(r *cq.RNG, up bool, v lorawan.MACVersion, conf uint32, dr, ch uint8, 
 		mts = []lorawan.MType{lorawan.UnconfirmedDataUp, lorawan.ConfirmedDataUp}
 	}
 	n := 23 + 16*r.Intn(3) // 16 (B0) + 1 + 7 + 1 + n is a multiple of 16
-	p := framefmt.DataFrame(r, framefmt.Opt{MType: mts[r.Intn(2)], Port: 1 + r.Intn(255), FRMLen: n, FCntHigh: r.Intn(10) < 7})
+	p := dataFrame(r, framefmt.Opt{MType: mts[r.Intn(2)], Port: 1 + r.Intn(255), FRMLen: n, FCntHigh: r.Intn(10) < 7})
 	m := p.MACPayload.(*lorawan.MACPayload)
 	pay := m.FRMPayload[0].(*lorawan.DataPayload)
 	b, err := p.MarshalBinary()
@@ -516,13 +517,63 @@ func aesCase(s *cases.Set, k, b []byte, name string) {
 		Replay: map[string]interface{}{"api": "crypto/aes Encrypt", "key": hx(k), "block": hx(b), "observed": hx(o)}})
 }
 
+// dataFrame / joinFrame: the framefmt generators with the MHDR Major field drawn from all four values (the library
+// accepts any; the MHDR octet enters every MIC)
+func dataFrame(r *cq.RNG, o framefmt.Opt) lorawan.PHYPayload {
+	p := framefmt.DataFrame(r, o)
+	p.MHDR.Major = lorawan.Major(r.Intn(4))
+	return p
+}
+
+func joinFrame(r *cq.RNG, kind int) lorawan.PHYPayload {
+	p := framefmt.JoinFrame(r, kind)
+	p.MHDR.Major = lorawan.Major(r.Intn(4))
+	return p
+}
+
+// opaquify replaces *DataPayload elements of FRMPayload / FOpts by a Payload implementation that does not come
+// from the library (framefmt.Opaque; on the wire it is the bytes its MarshalBinary returns). how: 0 all, 1 FRMPayload
+// only, 2 FOpts only, 3 FRMPayload split into [Opaque, DataPayload].
+func opaquify(p lorawan.PHYPayload, how int) lorawan.PHYPayload {
+	m, ok := p.MACPayload.(*lorawan.MACPayload)
+	if !ok {
+		return p
+	}
+	c := *m
+	conv := func(l []lorawan.Payload) []lorawan.Payload {
+		out := make([]lorawan.Payload, len(l))
+		for i, e := range l {
+			if d, ok := e.(*lorawan.DataPayload); ok {
+				out[i] = &framefmt.Opaque{B: append([]byte{}, d.Bytes...)}
+			} else {
+				out[i] = e
+			}
+		}
+		return out
+	}
+	if how == 0 || how == 1 {
+		c.FRMPayload = conv(m.FRMPayload)
+	}
+	if how == 0 || how == 2 {
+		c.FHDR.FOpts = conv(m.FHDR.FOpts)
+	}
+	if how == 3 && len(m.FRMPayload) == 1 {
+		if d, ok := m.FRMPayload[0].(*lorawan.DataPayload); ok && len(d.Bytes) >= 2 {
+			h := len(d.Bytes) / 2
+			c.FRMPayload = []lorawan.Payload{&framefmt.Opaque{B: append([]byte{}, d.Bytes[:h]...)}, &lorawan.DataPayload{Bytes: append([]byte{}, d.Bytes[h:]...)}}
+		}
+	}
+	p.MACPayload = &c
+	return p
+}
+
 func main() {
 	log.SetOutput(io.Discard)
 	dir, seed, thorough := cases.Args()
 	r := cq.NewRNG(seed)
 	nr = cq.NewRNG(seed ^ 0x9e3779b97f4a7c15)
 	s := cases.New("C02", dir, "LW.Corr.C02",
-		"RFC 4493 examples 1-4 and FIPS-197 C.1 first; then data frames (framefmt.DataFrame) whose MIC message length is cycled over 1..16 CMAC blocks (FRMPayload length chosen for it), FCnt with high bits in 70%, ConfFCnt with high bits in 70%, ACK alternating, both MAC versions, txDR/txCh cycled over all byte values, random/degenerate keys, carried MIC = valid / random / one bit flipped / first half changed / second half changed; validate also called with the other direction's function; malformed: nil MACPayload, wrong payload type, unencodable frame (16-byte FOpts, MAC command on port > 0). Special MIC values: frames CONSTRUCTED (internal/micforge: CMAC inverted in its last block, which lies inside the FRMPayload; 1.1 uplink by a 2^16 search for the second half) so that their correct MIC is 00000000, ffffffff, 00000001, the MIC of the previous case, 0000xxxx, xxxx0000 - for uplink/downlink x 1.0/1.1; Set must give that MIC and Validate of the frame carrying it must be true. History: unrelated library calls (internal/noise) before every compared call; neighbour families run back to back (a base call whose frame carries its valid MIC, then the same call with exactly one input changed - single FCnt bits 16, 31, one more high and one low bit, FCnt + 2^16, ConfFCnt + 1 / + 2^16, txDR, txCh, each key zeroed, keys equal, keys swapped, other version - the frame still carrying the base MIC, then the base call again), and MICs that are correct under a RELATED formula of the library (other version, downlink formula with either key, 1.0 / MICF form, keys swapped, neighbouring ConfFCnt/txDR/txCh, halves swapped, cmacF half twice), and a verdict family on ONE frame object (wrong keys, the same wrong keys again, the right keys; MIC never re-assigned), each an ordinary case compared with model and specification; after every Validate* call the frame must print and marshal as before (validate-changes-frame:); every compared call is repeated from 8 goroutines at once (ReplayConcurrently) and three times later in the process (reverse, same, shuffled order) and must give its first result. Cases are distinct by construction (random keys) except the repeated base calls.")
+		"RFC 4493 examples 1-4 and FIPS-197 C.1 first; then data frames (framefmt.DataFrame) whose MIC message length is cycled over 1..16 CMAC blocks (FRMPayload length chosen for it), FCnt with high bits in 70%, ConfFCnt with high bits in 70%, ACK alternating, both MAC versions, txDR/txCh cycled over all byte values, random/degenerate keys, carried MIC = valid / random / one bit flipped / first half changed / second half changed; validate also called with the other direction's function; MHDR Major drawn from 0..3; in a quarter of the frames the FRMPayload / FOpts elements are of a foreign Payload type (framefmt.Opaque, mixed [Opaque, DataPayload], a clocksync.Command on port 202); malformed: nil MACPayload, wrong payload type, unencodable frame (16-byte FOpts, MAC command on port > 0). Special MIC values: frames CONSTRUCTED (internal/micforge: CMAC inverted in its last block, which lies inside the FRMPayload; 1.1 uplink by a 2^16 search for the second half) so that their correct MIC is 00000000, ffffffff, 00000001, the MIC of the previous case, 0000xxxx, xxxx0000 - for uplink/downlink x 1.0/1.1; Set must give that MIC and Validate of the frame carrying it must be true. History: unrelated library calls (internal/noise) before every compared call; neighbour families run back to back (a base call whose frame carries its valid MIC, then the same call with exactly one input changed - single FCnt bits 16, 31, one more high and one low bit, FCnt + 2^16, ConfFCnt + 1 / + 2^16, txDR, txCh, each key zeroed, keys equal, keys swapped, other version - the frame still carrying the base MIC, then the base call again), and MICs that are correct under a RELATED formula of the library (other version, downlink formula with either key, 1.0 / MICF form, keys swapped, neighbouring ConfFCnt/txDR/txCh, halves swapped, cmacF half twice), and a verdict family on ONE frame object (wrong keys, the same wrong keys again, the right keys; MIC never re-assigned), each an ordinary case compared with model and specification; after every Validate* call the frame must print and marshal as before (validate-changes-frame:); every compared call is repeated from 8 goroutines at once (ReplayConcurrently) and three times later in the process (reverse, same, shuffled order) and must give its first result. Cases are distinct by construction (random keys) except the repeated base calls.")
 	s.ShardSize = 60
 	n := 600
 	if thorough {
@@ -578,11 +629,21 @@ func main() {
 			o.FRMLen = 246 - o.FOptsBytes
 		}
 		o.FCntHigh = r.Intn(10) < 7
-		p := framefmt.DataFrame(r, o)
+		p := dataFrame(r, o)
 		m := p.MACPayload.(*lorawan.MACPayload)
 		m.FHDR.FCtrl.ACK = i%2 == 0
 		if r.Intn(12) == 0 {
 			m.FHDR.FCnt = []uint32{0, 0xffff, 0x10000, 0xffffffff, 0xffff0000}[r.Intn(5)]
+		}
+		if i%4 == 2 { // payload elements of a type that does not come from the library (wire form: their MarshalBinary bytes)
+			p = opaquify(p, (i/4)%4)
+		}
+		if i%40 == 7 {
+			pt := uint8(202)
+			mm := *p.MACPayload.(*lorawan.MACPayload)
+			mm.FPort = &pt
+			mm.FRMPayload = []lorawan.Payload{&clocksync.Command{CID: clocksync.AppTimeReq, Payload: &clocksync.AppTimeReqPayload{DeviceTime: r.U32(), Param: clocksync.AppTimeReqPayloadParam{AnsRequired: r.Bool(), TokenReq: uint8(r.Intn(16))}}}}
+			p.MACPayload = &mm
 		}
 		v := vers[(i/2)%2]
 		conf := counter(r)
@@ -610,13 +671,13 @@ func main() {
 			if o2.FRMLen > 60 {
 				o2.FRMLen = r.Intn(61)
 			}
-			q := framefmt.DataFrame(r, o2)
+			q := dataFrame(r, o2)
 			q.MACPayload.(*lorawan.MACPayload).FHDR.FCtrl.ACK = i%2 == 0
 			fam := q.MHDR.MType == lorawan.UnconfirmedDataUp || q.MHDR.MType == lorawan.ConfirmedDataUp
 			family(s, r, q, fam, vers[(i/4)%2], counter(r), dr, ch, key(r), key(r), i)
 		}
 		if i%10 == 3 { // malformed stream
-			q := framefmt.DataFrame(r, framefmt.ValidDataOpt(r))
+			q := dataFrame(r, framefmt.ValidDataOpt(r))
 			switch r.Intn(4) {
 			case 0:
 				q.MACPayload = nil
